@@ -3,14 +3,15 @@ CONSTANTS
   Refs = {1, 2}
   Pushers = {1}
   Inits <- Inits01
-  PushIn <- WireNeg
-  CheckCas = FALSE
+  PushIn <- WireMC
+  CheckCas = TRUE
   CheckObj = TRUE
   AtomicMode = "txn"
   LocalCheckObj = TRUE
   LocalAtomicMode = "txn"
   KeepHist = FALSE
   Emit = FALSE
+INVARIANT TypeOK
 INVARIANT StatusExact
 INVARIANT NoDanglingRef
 INVARIANT AtomicOK
